@@ -37,7 +37,7 @@ MANIFEST = {
                    "delivery itself (Tell -> mailbox -> Receive exactly once) is C02's; here a Terminated is counted when "
                    "it is enqueued in the model and when Receive sees it on the real system. Sibling/cousin watch pairs "
                    "inside one stopped subtree and pairs stopped together by system Stop race by design and are not "
-                   "judged. Open finding C10-F1: a watcher's own restart silently drops its watches. The race named by "
+                   "judged. C10-F1 (a watcher's own restart silently dropped its watches) was fixed by b59b9b2; its witnesses stay in the corpus. The race named by "
                    "the property (UnWatch after the snapshot still gets one Terminated; Watch after the snapshot gets "
                    "none, ever) is part of the theorem's statement, not an alarm."),
     "technique": "Lean 4 proof over all interleavings of an environment with freeWatchers on the tree model + scenario differential and spec oracle on a real actor system",
@@ -226,7 +226,7 @@ def oracle(case, impl, judge):
 
 
 def classify(case, impl, why):
-    """C10-F1: the ONLY mismatch family mapped is: a watcher got 0 instead of 1 and that watcher was restarted
+    """C10-F1 (fixed by b59b9b2, no longer listed as open, so a recurrence is a VIOLATION): the ONLY mismatch family mapped is: a watcher got 0 instead of 1 and that watcher was restarted
     (an R op covering it) after its Watch and before the watched actor terminated."""
     if not impl or _c09._inconclusive(impl):
         return None
